@@ -1,6 +1,7 @@
 mod adapter;
 mod beh;
 mod common;
+mod forge;
 mod judge;
 mod session;
 
